@@ -14,7 +14,9 @@ from .. import core, e1, refcodec
 from ..world import MCAST, Choice, RandomSeam, make_sd, timings
 
 INF = 0xFFFFFF
-SRV = {"S1": ("192.0.2.111", 30490), "S2": ("2001:db8::112", 30490, 0, 0)}
+SRV = {"S1": ("192.0.2.111", 30490), "S2": ("2001:db8::112", 30490, 0, 0),
+       # two servers that differ only in the scope id of their link-local address, one that differs from S1 in its port
+       "S3": ("fe80::113", 30490, 0, 2), "S4": ("fe80::113", 30490, 0, 3), "S5": ("192.0.2.111", 30491)}
 SRVNAME = {v: k for k, v in SRV.items()}
 
 
@@ -39,7 +41,7 @@ class Model:
     def __init__(self):
         self.requested = []  # (eg name, server name) in request order
         self.alive = False
-        self.server = {"S1": set(), "S2": set()}  # eventgroup names held by each server
+        self.server = {n: set() for n in SRV}  # eventgroup names held by each server
         self.last_sub = {}  # (eg, server) -> time of the latest Subscribe on the wire
         self.since = {}  # (eg, server) -> time from which a Subscribe is owed
 
@@ -212,6 +214,9 @@ def configs(ctx):
                                                          deviations=2, fine=1), CLOSURE))
     out.append(("ttl3-refresh2-four-pairs", dict(sid=sid, advs=(None, "next"), ttl=3, refresh=2, pairs=all_pairs,
                                                  deviations=ctx.pick(0, 1), fine=0), ctx.pick(5, 8)))
+    alias = (("E1", "S3"), ("E1", "S4"), ("E1", "S1"), ("E1", "S5"))
+    out.append(("ttl3-refresh2-aliased-server-addresses", dict(sid=sid, advs=(None, "next"), ttl=3, refresh=2, pairs=alias,
+                                                               deviations=0, fine=0), ctx.pick(5, 8)))
     out.append(("ttl-forever-no-refresh", dict(sid=sid, advs=(None, "half"), ttl=INF, refresh=None, pairs=all_pairs[1:3],
                                                deviations=ctx.pick(1, 2), fine=0), CLOSURE))
     return out
